@@ -13,3 +13,9 @@ H("G-INPUT", "input_length_prefixed_actor_ids_budget", "C17 C15", "every 5-byte 
   "<= n+1 iterations, <= 4 elements, no allocation from the count", unwind_is_budget=True, tier="thorough")
 H("G-INPUT", "input_length_prefixed_hashes_budget", "C17 C15", "every 40-byte input, element count any u64; unwind 12", "<= 1 hash parsed; stops at first shortfall", unwind_is_budget=True)
 H("G-INPUT", "input_apply_n_budget", "C17", "every 4-byte input, any usize n; unwind 8", "apply_n stops at the first failing element", unwind_is_budget=True)
+for _n in ("max", "2p63"):
+    H("G-INPUT", "input_length_prefixed_huge_count_%s" % _n, "C17 C15 C14", "CONCRETE input: count prefix u64::MAX resp. 2^63 (10-byte varint) + 35 zero bytes; unwind 13 = budget",
+      "fails with not-enough-input; nothing is sized from the count (replayable witness for the any-count budget harness)", unwind_is_budget=True)
+for _n in ("max", "2p62"):
+    H("G-INPUT", "input_apply_n_huge_count_%s" % _n, "C17 C15", "CONCRETE input: n = usize::MAX resp. 2^62, 4 bytes, 4-byte elements; unwind 8 = budget",
+      "fails at the second element; nothing sized from n", unwind_is_budget=True)
